@@ -273,6 +273,15 @@ func execCall(c Call, cs C15Case, a, b jd.JsonNode, diffs []jd.Diff, sharedOpts 
 			return outcome{text: d.Render()}
 		case "RenderColor":
 			return outcome{text: d.Render(renderOpts(jd.COLOR)...)}
+		case "RenderWith":
+			// rendering under the option set of the call (MERGE among them):
+			// options given to a renderer describe the rendering, not the diff
+			return outcome{text: d.Render(opts...)}
+		case "ElemRenderWith":
+			if len(d) == 0 {
+				return outcome{text: ""}
+			}
+			return outcome{text: d[c.E%len(d)].Render(opts...)}
 		case "RenderPatch":
 			s, err := d.RenderPatch()
 			return outcome{text: s, err: err != nil}
@@ -721,7 +730,7 @@ func checkC15(c C15Case) (*Violation, []string, *caseInfo) {
 	// look like (multi-hunk / multi-value hunk / void addition), whether merge
 	// or set readings are in play, and the map-order mode
 	classOf := map[string]string{"Diff": "Diff", "DiffBA": "Diff", "Equals": "Equals", "Json": "JsonYaml", "Yaml": "JsonYaml",
-		"Render": "Render", "RenderColor": "Render", "ElemRender": "Render", "ElemRenderColor": "Render",
+		"Render": "Render", "RenderColor": "Render", "ElemRender": "Render", "ElemRenderColor": "Render", "RenderWith": "Render", "ElemRenderWith": "Render",
 		"RenderPatch": "RenderPatch", "RenderMerge": "RenderMerge", "Read": "Read", "ReadDoc": "Read", "PatchPrivate": "PatchPrivate"}
 	uniq := map[string]bool{}
 	var kinds []string
@@ -927,8 +936,8 @@ func genCase15(c *Chooser) C15Case {
 	}
 	nd := len(cs.Opts) + len(cs.Texts)
 	ncall := c.Range(1, 24)
-	ops := []string{"Diff", "DiffBA", "Equals", "Json", "Yaml", "Render", "RenderColor", "RenderPatch", "RenderMerge", "ElemRender", "ElemRenderColor", "Read", "ReadDoc", "PatchPrivate"}
-	weights := []int{3, 1, 2, 2, 2, 4, 2, 5, 5, 1, 1, 4, 1, 3}
+	ops := []string{"Diff", "DiffBA", "Equals", "Json", "Yaml", "Render", "RenderColor", "RenderPatch", "RenderMerge", "ElemRender", "ElemRenderColor", "Read", "ReadDoc", "PatchPrivate", "RenderWith", "ElemRenderWith"}
+	weights := []int{3, 1, 2, 2, 2, 4, 2, 5, 5, 1, 1, 4, 1, 3, 3, 1}
 	for i := 0; i < ncall; i++ {
 		op := ops[c.Pick(weights...)]
 		call := Call{Op: op, D: c.Int(nd + i/2), N: c.Int(2), O: c.Int(len(cs.Opts)), E: c.Int(4)}
